@@ -78,8 +78,14 @@ func readTxRecordLoc(v []byte) (*database.BlockLoc, *wire.TxLoc, error) {
 }
 
 func existsTxRecord(ns mwdb.Bucket, txHash *wire.Hash, block *BlockMeta) (k, v []byte) {
+	k, v, _ = fetchTxRecord(ns, txHash, block)
+	return
+}
+
+// fetchTxRecord is existsTxRecord reporting a failed read instead of "no record".
+func fetchTxRecord(ns mwdb.Bucket, txHash *wire.Hash, block *BlockMeta) (k, v []byte, err error) {
 	k = keyTxRecord(txHash, block)
-	v, _ = ns.Get(k)
+	v, err = ns.Get(k)
 	return
 }
 
